@@ -124,16 +124,34 @@ func (x *Exec) verifyFunction() {
 			st.assume(env.evalBool(r.Expr))
 		}
 		x.addCover(st, "requires")
+		if len(x.fc.GhostDecls) > 0 {
+			st.ghost = map[string]SV{}
+			for _, g := range x.fc.GhostDecls {
+				env := x.contractEnv(st, nil, nil)
+				if g.Array {
+					iv := env.evalInt(g.Init)
+					if !iv.IsInt() || iv.Int.Sign() != 0 {
+						x.fail("ghost array %s: only the initial value 0 is supported", g.Name)
+					}
+					st.ghost[g.Name] = SV{K: KSeq, Arr: App("zeroarr", SArrI), Off: IntC(0), Len: MaxLenTerm, Cap: MaxLenTerm}
+					continue
+				}
+				st.ghost[g.Name] = intSV(env.evalInt(g.Init), types.Typ[types.Int])
+			}
+		}
 	}
 	x.run(st)
 }
 
 func (x *Exec) contractEnv(st *State, results []SV, old HeapView) *CEnv {
-	env := &CEnv{x: x, vars: map[string]SV{}, cur: st.heap, old: old, qn: &x.qn, wmOld: st.entryWM, wmCur: st.wm}
+	env := &CEnv{x: x, vars: map[string]SV{}, cur: st.heap, old: old, qn: &x.qn, wmOld: st.entryWM, wmCur: st.wm, st: st}
 	for k, v := range x.params {
 		env.vars[k] = v
 	}
 	env.entryVars = x.params
+	for k, v := range st.ghost {
+		env.vars[k] = v
+	}
 	if results != nil {
 		sig := x.fn.Signature
 		for i := 0; i < sig.Results().Len(); i++ {
@@ -464,12 +482,18 @@ func (x *Exec) instrMods(in ssa.Instruction, li *loopInfo, seen map[*ssa.Functio
 		if rng, ok := i.Iter.(*ssa.Range); ok && i.IsString {
 			li.strIter = rng
 		}
-	case *ssa.MakeMap, *ssa.MakeClosure, *ssa.MakeChan:
+	case *ssa.MakeMap:
+		li.allocs = true
+		for _, k := range mapHeapKeys(i.Type()) {
+			li.modHeap[k] = true
+		}
+	case *ssa.MakeClosure, *ssa.MakeChan:
 		li.allocs = true
 	case *ssa.MakeInterface:
 	case *ssa.MapUpdate:
-		li.modHeap["M:"+typeName(i.Map.Type())] = true
-		li.modHeap["M:"+typeName(i.Map.Type())+"#has"] = true
+		for _, k := range mapHeapKeys(i.Map.Type()) {
+			li.modHeap[k] = true
+		}
 	case *ssa.Convert:
 		if typeKind(i.Type()) == KSeq && typeKind(i.X.Type()) == KSeq {
 			li.allocs = true
@@ -495,7 +519,9 @@ func (x *Exec) callMods(c *ssa.CallCommon, li *loopInfo, seen map[*ssa.Function]
 				li.modHeap[elemKeyBase(et)+lf.suffix] = true
 			}
 		case "delete":
-			li.modHeap["M:"+typeName(c.Args[0].Type())+"#has"] = true
+			for _, k := range mapHeapKeys(c.Args[0].Type()) {
+				li.modHeap[k] = true
+			}
 		}
 		return
 	}
@@ -523,6 +549,28 @@ func (x *Exec) callMods(c *ssa.CallCommon, li *loopInfo, seen map[*ssa.Function]
 		keys, allocs, all := x.prog.modifiesKeys(x, callee, fc)
 		for _, k := range keys {
 			li.modHeap[k] = true
+		}
+		// pointer arguments that are addresses of fields or locals: the callee's license on *param is a license on that cell
+		for _, a := range c.Args {
+			switch a.(type) {
+			case *ssa.FieldAddr, *ssa.Alloc:
+				if len(fc.Modifies) == 0 {
+					continue
+				}
+				al, p, hk, unk := x.addrRoot(a)
+				switch {
+				case unk:
+					li.modAll = true
+				case al != nil:
+					if al.Parent() == x.fn {
+						li.modCells[al] = append(li.modCells[al], p)
+					}
+				default:
+					for _, k := range hk {
+						li.modHeap[k] = true
+					}
+				}
+			}
 		}
 		if allocs {
 			li.allocs = true
@@ -596,6 +644,13 @@ func (x *Exec) atLoopHead(st *State, li *loopInfo) bool {
 		for _, c := range invs {
 			x.assert(st, fmt.Sprintf("inv-step:%d:%s", ord, c.Label), env.evalBool(c.Expr), c.Text, token.NoPos)
 		}
+		if li.spec != nil && len(li.spec.Steps) > 0 && vis.snap != nil {
+			env.prev = x.loopEnv(vis.snap, li)
+			env.prev.st = nil
+			for _, c := range li.spec.Steps {
+				x.assert(st, fmt.Sprintf("step:%d:%s", ord, c.Label), env.evalBool(c.Expr), c.Text, token.NoPos)
+			}
+		}
 		if dec != nil {
 			m := env.evalInt(dec.Expr)
 			x.assert(st, fmt.Sprintf("dec:%d", ord), And(Le(IntC(0), vis.measure), Lt(m, vis.measure)), "decreases "+dec.Text, token.NoPos)
@@ -627,6 +682,9 @@ func (x *Exec) atLoopHead(st *State, li *loopInfo) bool {
 	vis := &loopVisit{}
 	if dec != nil {
 		vis.measure = env.evalInt(dec.Expr)
+	}
+	if li.spec != nil && len(li.spec.Steps) > 0 {
+		vis.snap = st.clone()
 	}
 	fr.loopSeen[li.head] = vis
 	x.addCover(st, fmt.Sprintf("loop%d", ord))
@@ -750,6 +808,34 @@ func (x *Exec) bindLocals(env *CEnv, fr *Frame, li *loopInfo) {
 	// heap-allocated (escaping) named locals are not bound
 }
 
+func (li *loopInfo) hasByteAppend() bool {
+	for b := range li.blocks {
+		for _, in := range b.Instrs {
+			if cc, ok := in.(*ssa.Call); ok {
+				if bi, ok := cc.Common().Value.(*ssa.Builtin); ok && bi.Name() == "append" {
+					if et := elemTypeOf(cc.Type()); et != nil && elemKeyBase(et) == "E:byte" {
+						return true
+					}
+				}
+			}
+		}
+	}
+	return false
+}
+
+func (li *loopInfo) hasDynCall() bool {
+	for b := range li.blocks {
+		for _, in := range b.Instrs {
+			if cc, ok := in.(*ssa.Call); ok && cc.Common().StaticCallee() == nil {
+				if _, isB := cc.Common().Value.(*ssa.Builtin); !isB {
+					return true
+				}
+			}
+		}
+	}
+	return false
+}
+
 func (x *Exec) havocLoop(st *State, li *loopInfo) {
 	fr := st.top()
 	if li.modAll {
@@ -772,6 +858,20 @@ func (x *Exec) havocLoop(st *State, li *loopInfo) {
 			old = setPath(old, p, nv)
 		}
 		fr.cells[a] = old
+	}
+	if st.ghost != nil && (li.hasByteAppend() || li.hasDynCall()) {
+		var gn []string
+		for k := range st.ghost {
+			gn = append(gn, k)
+		}
+		sort.Strings(gn)
+		for _, k := range gn {
+			if st.ghost[k].K == KSeq {
+				st.ghost[k] = SV{K: KSeq, Arr: Var(x.freshName("ghostarr."+k), SArrI), Off: IntC(0), Len: MaxLenTerm, Cap: MaxLenTerm}
+				continue
+			}
+			st.ghost[k] = x.freshOf(st, types.Typ[types.Int], "ghost."+k)
+		}
 	}
 	if li.strIter != nil && fr.iters != nil {
 		if it, ok := fr.regs[li.strIter]; ok && it.Dyn != nil {
@@ -903,6 +1003,9 @@ func (x *Exec) run(st *State) {
 			}
 			fr.defers = append(fr.defers, fv)
 		case *ssa.Store:
+			if x.fc != nil && len(x.fc.StoreSites) > 0 && len(st.frames) == 1 {
+				x.checkStoreSite(st, i)
+			}
 			l := x.addrOf(st, i.Addr, i.Pos())
 			x.store(st, l, x.value(st, i.Val))
 		case *ssa.MapUpdate:
@@ -920,6 +1023,86 @@ func (x *Exec) run(st *State) {
 			x.fail("unsupported instruction %T", in)
 		}
 	}
+}
+
+// checkStoreSite: the append-only discipline of an output field.  A store into the field is
+// accepted only if the stored value is the result of one of the listed operations applied to
+// the field's current value (first operand a load of the same field).
+func (x *Exec) checkStoreSite(st *State, i *ssa.Store) {
+	fa, ok := i.Addr.(*ssa.FieldAddr)
+	if !ok {
+		return
+	}
+	stt, ok := fa.X.Type().Underlying().(*types.Pointer).Elem().Underlying().(*types.Struct)
+	if !ok {
+		return
+	}
+	fname := stt.Field(fa.Field).Name()
+	allowed, ok := x.fc.StoreSites[fname]
+	if !ok {
+		return
+	}
+	isLoadOfField := func(v ssa.Value) bool {
+		u, ok := v.(*ssa.UnOp)
+		if !ok || u.Op != token.MUL {
+			return false
+		}
+		f2, ok := u.X.(*ssa.FieldAddr)
+		return ok && f2.Field == fa.Field && ptrRoot(f2.X) == ptrRoot(fa.X)
+	}
+	okStore := false
+	what := "value of unknown origin"
+	if c, isCall := i.Val.(*ssa.Call); isCall {
+		name := ""
+		if b, isB := c.Call.Value.(*ssa.Builtin); isB {
+			name = b.Name()
+		} else if callee := c.Call.StaticCallee(); callee != nil {
+			name = calleeKey(callee)
+			if !x.prog.inScope(callee) {
+				name = fullName(callee)
+			}
+		}
+		what = "result of " + name
+		for _, a := range allowed {
+			if a == name && len(c.Call.Args) > 0 && isLoadOfField(c.Call.Args[0]) {
+				okStore = true
+			}
+		}
+	}
+	n := 0
+	for _, b := range i.Parent().Blocks {
+		for _, in := range b.Instrs {
+			if s2, ok := in.(*ssa.Store); ok {
+				if s2 == i {
+					goto done
+				}
+				if f2, ok := s2.Addr.(*ssa.FieldAddr); ok && f2.Field == fa.Field {
+					n++
+				}
+			}
+		}
+	}
+done:
+	x.assert(st, fmt.Sprintf("site:store:%s#%d", fname, n), BoolC(okStore), "the output field "+fname+" is only extended by "+strings.Join(allowed, ", ")+" applied to its current value (here: "+what+")", i.Pos())
+}
+
+// ptrRoot: in naive form a parameter or local pointer is re-loaded from its cell before every use;
+// two loads of the same never-reassigned cell denote the same pointer.
+func ptrRoot(v ssa.Value) ssa.Value {
+	if u, ok := v.(*ssa.UnOp); ok && u.Op == token.MUL {
+		if a, ok := u.X.(*ssa.Alloc); ok {
+			stores := 0
+			for _, r := range *a.Referrers() {
+				if s, ok := r.(*ssa.Store); ok && s.Addr == a {
+					stores++
+				}
+			}
+			if stores <= 1 {
+				return a
+			}
+		}
+	}
+	return v
 }
 
 func (x *Exec) jump(st *State, b *ssa.BasicBlock) bool {
